@@ -4,6 +4,8 @@ package main
 
 import (
 	"fmt"
+	"go/token"
+	"go/types"
 	"sort"
 	"strings"
 
@@ -120,7 +122,7 @@ func engineEL(w *World, tier string) *EngineResult {
 			case "exits":
 				r.holds("EL", fnKey(fn), construct, "every EOF path leaves the loop", pos)
 			case "noexit":
-				if why, ok := elReviewed["EL|"+fnKey(fn)+"|"+construct]; ok && len(path) > 0 && hasUnknownCond(path) {
+				if why, ok := elReviewed["EL|"+fnKey(fn)+"|"+construct]; ok && len(path) > 0 && hasUnknownCond(path) && visitedGuard(fn, l) {
 					r.Reviewed["EL|"+fnKey(fn)+"|"+construct] = why
 					r.add(Obligation{Rule: "EL", Func: fnKey(fn), Construct: construct, Verdict: Holds, Detail: "reviewed exception (cycle passes conditions that do not depend on the input)", Pos: pos, Reviewed: why})
 					continue
@@ -144,7 +146,66 @@ func engineEL(w *World, tier string) *EngineResult {
 
 // elReviewed: cycles that pass only input-independent conditions and were read.
 var elReviewed = map[string]string{
-	"EL|eval.(*Def).getChainMethodReturnType|loop#1(reads Eval)": "the loop re-evaluates an identifier until it stops resolving to another identifier; its exit tests read TFrame contents, not the input, so the EOF argument does not apply — termination is not decided (C02 'not covered')",
+	"EL|eval.(*Def).getChainMethodReturnType|loop#1(reads Eval)": "the loop follows an identifier to what it evaluates to; its exit tests read the frame table, not the input, so the EOF argument does not apply. Since the repair of the `@a, @b = @b, @a` hang every identifier text is entered into a local visited set before it is followed and a repeat leaves the loop: the iterations are bounded by the number of distinct identifier texts. The premise (a look-up in a map made in this function exits the loop, and an update of that map lies on every way back to the header) is re-checked on every run; without it the exception is withdrawn",
+}
+
+// visitedGuard: the loop tests membership in a map made in this function and leaves when
+// the key is present, and every way back to the header passes an update of that map.
+func visitedGuard(fn *ssa.Function, l *natLoop) bool {
+	for b := range l.body {
+		iff, ok := b.Instrs[len(b.Instrs)-1].(*ssa.If)
+		if !ok {
+			continue
+		}
+		lk, ok := iff.Cond.(*ssa.Lookup)
+		if !ok {
+			continue
+		}
+		mk, ok := lk.X.(*ssa.MakeMap)
+		if !ok || l.body[mk.Block()] {
+			continue
+		}
+		// present → out of the loop (directly or through a block that only leaves)
+		if l.body[b.Succs[0]] {
+			onlyLeaves := true
+			for _, s2 := range b.Succs[0].Succs {
+				if l.body[s2] {
+					onlyLeaves = false
+				}
+			}
+			if !onlyLeaves {
+				continue
+			}
+		}
+		// an update of the same map on every way back
+		var ups []*ssa.BasicBlock
+		for ub := range l.body {
+			for _, ins := range ub.Instrs {
+				if mu, ok := ins.(*ssa.MapUpdate); ok && mu.Map == ssa.Value(mk) {
+					ups = append(ups, ub)
+				}
+			}
+		}
+		all := len(ups) > 0
+		for _, p := range l.head.Preds {
+			if !l.body[p] {
+				continue
+			}
+			dominated := false
+			for _, u := range ups {
+				if u == p || u.Dominates(p) {
+					dominated = true
+				}
+			}
+			if !dominated {
+				all = false
+			}
+		}
+		if all {
+			return true
+		}
+	}
+	return false
 }
 
 func hasUnknownCond(path []string) bool {
@@ -316,9 +377,8 @@ func summarisePath(p []string) string {
 // elNoInput handles loops that are not driven by the reader: a small ranking
 // recogniser; anything else must be in the reviewed table.
 var elReviewedNoInput = map[string]string{
-	"eval/method_evaluator.splatArg|loop#1": "argTs grows by exactly one append per iteration and the bound is len(variants) of a local copy the loop never writes; the bound is a method call, so the recogniser cannot see its invariance — read and accepted",
 	"eval/method_evaluator.checkAndPropagateArgs|loop#1": "every continue path advances defineArgIdx (directly, or through asteriskDefineProcess/doubleAsteriskDefineProcess which return an index > the one passed in); bound len(sortedDfineArgs) is invariant — read and accepted, not decided by the engine",
-	"eval.(*Def).getChainMethodReturnType|loop#1": "termination depends on TFrame contents (chain of identifier re-evaluations) — not decided by this engine; stated under C02 'not covered'",
+	"eval.(*Def).getChainMethodReturnType|loop#1": "see the entry of the same loop in elReviewed",
 }
 
 func elNoInput(w *World, r *EngineResult, fn *ssa.Function, l *natLoop, construct string) {
@@ -369,9 +429,45 @@ func rankingRecognised(l *natLoop) (string, bool) {
 			sides := []ssa.Value{c.X, c.Y}
 			for i, side := range sides {
 				other := sides[1-i]
+				// the loop must be left once the growing side has passed the bound: an ordered
+				// comparison whose exit edge is the one taken for large values of the growing side.
+				// (`!=` / `==` are no ranking argument: a counter that starts above the bound, or
+				// steps over it, never meets it.)
+				growingExits := func() bool {
+					op := c.Op
+					if i == 1 { // bound OP growing  →  growing OP' bound
+						switch op {
+						case token.LSS:
+							op = token.GTR
+						case token.GTR:
+							op = token.LSS
+						case token.LEQ:
+							op = token.GEQ
+						case token.GEQ:
+							op = token.LEQ
+						}
+					}
+					exitOnTrue := !l.body[b.Succs[0]]
+					exitOnFalse := !l.body[b.Succs[1]]
+					switch op {
+					case token.GEQ, token.GTR:
+						return exitOnTrue
+					case token.LSS, token.LEQ:
+						return exitOnFalse
+					}
+					return false
+				}
 				if ph := counterRoot(l, side); ph != nil && invariantIn(l, other, 0) {
-					if growsOnEveryBackEdge(l, ph) {
-						return "exit test on every cycle compares a counter that strictly grows on every back edge with a loop-invariant bound", true
+					if growsOnEveryBackEdge(l, ph) && growingExits() {
+						return "exit test on every cycle compares a counter that strictly grows on every back edge with a loop-invariant bound, and the exit is taken once the counter has passed it", true
+					}
+				}
+				// len(s) for a slice phi that is replaced by append(s, …) on every back edge
+				if call, ok := side.(*ssa.Call); ok {
+					if bi, ok := call.Call.Value.(*ssa.Builtin); ok && bi.Name() == "len" && len(call.Call.Args) == 1 {
+						if ph, ok := call.Call.Args[0].(*ssa.Phi); ok && ph.Block() == l.head && appendGrownPhi(l, ph) && (invariantIn(l, other, 0) || pureInvariant(l, other)) && growingExits() {
+							return "exit test compares the length of a slice that grows by an append on every back edge with a loop-invariant bound, and the exit is taken once the length has passed it", true
+						}
 					}
 				}
 				if call, ok := side.(*ssa.Call); ok {
@@ -380,7 +476,7 @@ func rankingRecognised(l *natLoop) (string, bool) {
 							return "exit test compares len of a slice that strictly shrinks on every back edge", true
 						}
 						// len(*cell) where every iteration stores append(*cell, …) back into the cell
-						if ld, ok := call.Call.Args[0].(*ssa.UnOp); ok && invariantIn(l, other, 0) && growingCell(l, ld.X) {
+						if ld, ok := call.Call.Args[0].(*ssa.UnOp); ok && invariantIn(l, other, 0) && growingCell(l, ld.X) && growingExits() {
 							return "exit test compares the length of a slice variable that grows by an append on every iteration with a loop-invariant bound", true
 						}
 					}
@@ -559,6 +655,90 @@ func growingCell(l *natLoop, cell ssa.Value) bool {
 		}
 	}
 	return true
+}
+
+// appendGrownPhi: every back edge of the header phi carries append(phi, …) with at least
+// one element.
+func appendGrownPhi(l *natLoop, ph *ssa.Phi) bool {
+	ok := false
+	for i, p := range ph.Block().Preds {
+		if !l.body[p] {
+			continue
+		}
+		call, isCall := ph.Edges[i].(*ssa.Call)
+		if !isCall {
+			return false
+		}
+		bi, isB := call.Call.Value.(*ssa.Builtin)
+		if !isB || bi.Name() != "append" || len(call.Call.Args) < 2 || call.Call.Args[0] != ssa.Value(ph) {
+			return false
+		}
+		// the appended list is a fresh non-empty variadic slice
+		sl, isSl := call.Call.Args[1].(*ssa.Slice)
+		if !isSl {
+			return false
+		}
+		al, isAl := sl.X.(*ssa.Alloc)
+		if !isAl {
+			return false
+		}
+		at, isArr := al.Type().Underlying().(*types.Pointer).Elem().Underlying().(*types.Array)
+		if !isArr || at.Len() < 1 {
+			return false
+		}
+		ok = true
+	}
+	return ok
+}
+
+// pureInvariant: len(f(&local)) or f(&local) where f only reads and the local is not
+// written inside the loop.
+func pureInvariant(l *natLoop, v ssa.Value) bool {
+	if call, ok := v.(*ssa.Call); ok {
+		if bi, ok := call.Call.Value.(*ssa.Builtin); ok && bi.Name() == "len" && len(call.Call.Args) == 1 {
+			return pureInvariant(l, call.Call.Args[0])
+		}
+		cal := call.Call.StaticCallee()
+		if cal == nil || len(cal.Blocks) == 0 {
+			return false
+		}
+		c := &ixCtx{pure: map[*ssa.Function]int8{}}
+		if !c.isPure(cal, 0) {
+			return false
+		}
+		for _, a := range call.Call.Args {
+			switch x := a.(type) {
+			case *ssa.Alloc:
+				// not written inside the loop
+				for _, ref := range *x.Referrers() {
+					switch y := ref.(type) {
+					case *ssa.Store:
+						if y.Addr == ssa.Value(x) && l.body[y.Block()] {
+							return false
+						}
+					case *ssa.FieldAddr, *ssa.IndexAddr:
+						for _, r2 := range *y.(ssa.Value).Referrers() {
+							if st, ok := r2.(*ssa.Store); ok && l.body[st.Block()] {
+								return false
+							}
+						}
+					case *ssa.Call:
+						if l.body[y.Block()] && y != call {
+							if c2 := y.Call.StaticCallee(); c2 == nil || !c.isPure(c2, 0) {
+								return false
+							}
+						}
+					}
+				}
+			default:
+				if !invariantIn(l, a, 0) {
+					return false
+				}
+			}
+		}
+		return true
+	}
+	return false
 }
 
 func shrinkingPhi(l *natLoop, ph *ssa.Phi) bool {
